@@ -2,7 +2,7 @@
    [p_auth] = the ping verifies under the key bound to its source address (what that means for
    the bytes is C02: everything but TTL, flow flags and appendix is covered — so a tampered or
    re-addressed ping has p_auth = false). *)
-From Verif Require Import Prelude SwitchLabel Table Control ControlProofs.
+From Verif Require Import Prelude Gen SwitchLabel Table Control ControlProofs.
 
 (* A ping that does not verify under the key bound to its source changes none of: session keys,
    peer MTU, routes, stored public info, offline flag, connection status — for every ping kind,
@@ -44,3 +44,14 @@ Theorem C07_hello_scope : forall self c p y,
   c_offline (effect self c p) = c_offline c /\ c_conn (effect self c p) = c_conn c.
 Proof. exact hello_scope. Qed.
 Print Assumptions C07_hello_scope.
+
+(* ---------- one session per sender (go/ast obligation on the source under test) ---------- *)
+(* [C07_replay_no_effect] speaks of THE timestamp the router last accepted from a sender
+   ([c_latest]).  The router runs one frame handler worker per CPU; the original of a ping and a
+   replay can be handled at the same moment.  There is one timestamp because there is one session
+   object per sender: State.GetSession looks up, creates and registers the session under the
+   sessions lock for its whole body, and the timestamp check runs under the handler lock. *)
+Theorem C07_one_session_per_sender :
+  Gen.state_getsession_locked = true /\ Gen.session_signing_locked = true /\ Gen.timeseq_check_locked = true.
+Proof. repeat split; reflexivity. Qed.
+Print Assumptions C07_one_session_per_sender.
